@@ -443,7 +443,12 @@ class SSHConfig:
                         allow_equal = loption in self._conditionals
 
                 if loption in self._no_split:
-                    args = [line.lstrip()[len(loption):].strip()]
+                    arg = line.lstrip()[len(loption):].strip()
+
+                    if arg.startswith('='):
+                        arg = arg[1:].lstrip()
+
+                    args = [arg]
 
                 if not self._matching and loption not in self._conditionals:
                     continue
